@@ -766,11 +766,16 @@ func (vfs *OrefaFS) RemoveAll(path string) error {
 		defer vfs.mu.Unlock()
 
 		root := vfs.nodes[absPath]
-		for fileName, nd := range root.children {
+
+		verifYield(&root.mu, true)
+		root.mu.Lock()
+		children := root.children
+		root.children = nil
+		root.mu.Unlock()
+
+		for fileName, nd := range children {
 			vfs.removeAll(absPath+string(vfs.PathSeparator())+fileName, nd)
 		}
-
-		root.children = nil
 
 		return &fs.PathError{Op: "unlinkat", Path: path, Err: vfs.err.InvalidArgument}
 	}
@@ -788,28 +793,31 @@ func (vfs *OrefaFS) RemoveAll(path string) error {
 		return nil
 	}
 
-	if child.mode.IsDir() {
-		vfs.removeAll(absPath, child)
-	}
+	vfs.removeAll(absPath, child)
 
-	child.remove()
-
+	verifYield(&parent.mu, true)
+	parent.mu.Lock()
 	delete(parent.children, fileName)
-	delete(vfs.nodes, absPath)
+	parent.mu.Unlock()
 
 	return nil
 }
 
+// removeAll removes the node rootNode indexed by absPath and its children.
+// The content of a node is only modified while the node is locked.
 func (vfs *OrefaFS) removeAll(absPath string, rootNode *node) {
-	if rootNode.mode.IsDir() {
-		for fileName, nd := range rootNode.children {
-			path := absPath + string(vfs.PathSeparator()) + fileName
+	verifYield(&rootNode.mu, true)
+	rootNode.mu.Lock()
+	children := rootNode.children
+	rootNode.remove()
+	rootNode.mu.Unlock()
 
-			vfs.removeAll(path, nd)
-		}
+	for fileName, nd := range children {
+		path := absPath + string(vfs.PathSeparator()) + fileName
+
+		vfs.removeAll(path, nd)
 	}
 
-	rootNode.remove()
 	delete(vfs.nodes, absPath)
 }
 
